@@ -108,11 +108,12 @@ def capContent (typ len start : Nat) (c : Cur) : Outcome Cur :=
       | .panic => .panic
     | .err => .err
     | .panic => .panic
-  | 75 | 76 =>                                         -- SoftwareVersion, PathsLimit
+  | 75 =>                                              -- SoftwareVersion
     match c.u8 with
     | .ok (l, c) => c.advance l
     | .err => .err
     | .panic => .panic
+  | 76 => c.advance len                                -- PathsLimit: advance(len) (after the fix)
   | 128 => if len > 0 then .err else .ok c             -- PrestandardRouteRefresh
   | _ => .ok c                                         -- Reserved (0), Unimplemented
 
